@@ -207,6 +207,11 @@ def ops_for(kind):
         add("cls:callable", lambda o, x: callable(CTX["cls"]))
         add("cls:call", lambda o, x: CTX["cls"](*cargs) if kind != "file" else type(CTX["cls"](*cargs)).__name__ != "")
         add("cls:name", lambda o, x: CTX["cls"].__name__)
+        # comparisons whose TARGET is the class object itself (type.__eq__ / a metaclass's, not the instances' methods)
+        add("cls:eq-itself", lambda o, x: CTX["cls"] == CTX["cls"])
+        add("cls:ne-itself", lambda o, x: CTX["cls"] != CTX["cls"])
+        add("cls:eq-5", lambda o, x: CTX["cls"] == 5)
+        add("cls:ne-none", lambda o, x: CTX["cls"] != None)      # noqa: E711
         add("cls:isinstance(obj, cls)", lambda o, x: isinstance(o, CTX["cls"]))
         add("obj:callable", lambda o, x: callable(o))
     add("len", lambda o, x: len(o))
